@@ -61,7 +61,11 @@ let parse_obs (toks : string list) : (head res * n list) option =
 
 (* the request-level part of a `mk` observation: "; rq <method> <path> <query|-> H<k> name value .." | "; rq -" | "; rq panic" *)
 let rq_of_obs (toks : string list) : string list option =
-  let rec go = function ";" :: "rq" :: r -> Some r | _ :: r -> go r | [] -> None in go toks
+  let rec upto = function ";" :: _ | [] -> [] | t :: r -> t :: upto r in
+  let rec go = function ";" :: "rq" :: r -> Some (upto r) | _ :: r -> go r | [] -> None in go toks
+(* "; n2 ok" | "; n2 err:<kind>": a second message sent behind the head was (not) readable from the same buffer *)
+let n2_of_obs (toks : string list) : string option =
+  let rec go = function ";" :: "n2" :: v :: _ -> Some v | _ :: r -> go r | [] -> None in go toks
 
 let split_on_tok (sep : string) (toks : string list) : string list list =
   let rec go cur acc = function
@@ -105,7 +109,9 @@ let run_try ?(rq : string list option) url targets echo n rd data (extra : head 
                          " H" ^ string_of_int (List.length q.rq_headers) ^
                          String.concat "" (List.map (fun (a, b) -> " " ^ tok_of_bytes a ^ " " ^ tok_of_bytes b) q.rq_headers)
               | QErr _ -> "-")
-          | _ -> "-")) in
+          | _ -> "-") ^
+        (* the second message the harness sent behind a bodiless head must have been readable *)
+        (match n2_of_obs otoks with Some _ -> " ; n2 ok" | None -> "")) in
   Printf.printf "%s%s ; %s%s | %s\n" echo m (pr_buf cap b') rqm verdict
 
 let valid_setup n rd (data : n list) =
@@ -146,7 +152,12 @@ let () =
                let (hs, _) = take_pairs k r in
                if bytes_of_tok mm = h.h_method && bytes_of_tok pp = h.h_path
                   && (if qq = "-" then None else Some (bytes_of_tok qq)) = h.h_query
-                  && oracle_c14_req h.h_headers hs then None else Some "request-does-not-expose-the-head-fields-in-order"
+                  && oracle_c14_req h.h_headers hs then
+                 (* the bytes after this head stay available: the message sent behind it was read from the same buffer *)
+                 (match n2_of_obs otoks with
+                  | Some v when v <> "ok" -> Some ("next-message-not-readable-after-this-head-" ^ v)
+                  | _ -> None)
+               else Some "request-does-not-expose-the-head-fields-in-order"
              | Ok _, _ -> Some "unparsable-rq"
              | _, ["-"] -> None
              | _, _ -> Some "request-accepted-although-head-rejected" in
